@@ -700,6 +700,7 @@ pub fn net_counters(net: &Network, out: &mut crate::framework::Outcome) -> (u64,
             out.add("fault.pending_inject", p.stats.pending_injected);
             out.add("fault.delay_inject", p.stats.delays_injected);
             out.add("fault.tiny_buffer_full", p.stats.tiny_buffer_full);
+            out.add("probe.write_after_peer_close_discarded", p.stats.discarded_after_peer_close);
             for k in &p.stats.faults_fired {
                 any_fault = true;
                 out.count(&format!("fault.peer_{:?}", k).to_lowercase());
